@@ -37,7 +37,7 @@ func isErrorType(t types.Type) bool { return types.Identical(t, errorType) }
 // error from the named callee is intended. key: function short name + "<-" +
 // callee short name.
 var c20AllowNilUnderErr = map[string]string{
-	"(*synchronization/rsync.receiver).Receive<-(*filesystem.Opener).OpenFile":          "receiving side: an unreadable base burns this file's stream (r.burning=true, checked); not a transport failure — the file then fails staging verification",
+	"(*synchronization/rsync.receiver).Receive<-(*filesystem.Opener).OpenFile":           "receiving side: an unreadable base burns this file's stream (r.burning=true, checked); not a transport failure — the file then fails staging verification",
 	"(*synchronization/rsync.receiver).Receive<-iface:synchronization/rsync.Sinker.Sink": "receiving side: an unopenable sink burns this file's stream (r.burning=true, checked)",
 	"(*synchronization/rsync.receiver).Receive<-(*synchronization/rsync.Engine).Patch":   "receiving side: a failed patch burns this file's stream (r.burning=true, checked)",
 }
